@@ -80,6 +80,9 @@ type c12case struct {
 	escAuth   bool
 
 	// send
+	shape   string // how the command was built ("" = one of the stock commands)
+	prevCmd string // a plain command sent (and answered with prevOut) before the one under test
+	prevOut string
 	cmd   string
 	eager bool
 	out   string
@@ -129,7 +132,7 @@ func genC12(seed uint64, thorough bool) c12case {
 		cs.kind = "inter"
 	case k < 58:
 		cs.kind = "netinter"
-	case k < 88:
+	case k < 85:
 		cs.kind = "esc"
 	default:
 		cs.kind = "send"
@@ -308,20 +311,39 @@ func genC12(seed uint64, thorough bool) c12case {
 	case "send":
 		cs.cmd = r.Pick([]string{"show version", "show ip interface brief", "x", "ping 10.0.0.1 repeat 2",
 			"show access", "clear counters all", "ping 10.0.0.1 repeat 100", "show process cpu | i sss", "show ip bgp summ"})
-		cs.eager = r.Chance(1, 2)
+		cs.eager = r.Chance(1, 3)
 		cs.interim = !cs.eager && r.Chance(1, 4)
 		cs.out = c12out(r, cs.nl, maxLines)
+		if r.Chance(3, 5) {
+			c12genCmdShape(&cs, r)
+			if r.Chance(1, 4) {
+				cs.exact, cs.wrap = true, 0
+			}
+		}
 		note(cs.out)
-		if l := len(cs.host) + 4 + len(cs.cmd)*4/3; l > longest {
-			longest = l
+		note(cs.prevOut)
+		if cs.shape == "" {
+			if l := len(cs.host) + 4 + len(cs.cmd)*4/3; l > longest {
+				longest = l
+			}
 		}
 	}
 	cs.depth = 1000
 	if r.Chance(1, 3) {
-		cs.depth = longest + 3 + r.Intn(40)
+		// (for shaped plain commands the echo line may well be longer than the search depth: the
+		// echo read widens its window to twice the input, the prompt read starts after a newline)
+		cs.depth = longest + len(cs.host) + 3 + r.Intn(40)
 	}
 	if cs.weird != "silent" && r.Chance(1, 3) {
 		cs.echoTail = r.Range(1, 2)
+	}
+	if cs.shape != "" && len(cs.cmd) > 2 && r.Chance(2, 3) {
+		// the echo split at any offset, also inside the repeated part: the tail arrives later
+		hi := len(cs.cmd) - 1
+		if hi > 120 {
+			hi = 120
+		}
+		cs.echoTail = r.Range(1, hi)
 	}
 	if (cs.kind == "netinter" || cs.kind == "esc") && cs.depth < longest+len(cs.host)+40 {
 		cs.depth = longest + len(cs.host) + 40 + r.Intn(40) // prompts of the trees are longer (user@host..., banners)
@@ -346,6 +368,78 @@ func genC12(seed uint64, thorough bool) c12case {
 		}
 	}
 	return cs
+}
+
+// c12genCmdShape draws the plain command under test by shape: lengths around the powers of two a
+// matcher might cut at, up to beyond the search depth; self-similar texts (periodic, one long run,
+// a tail that repeats an earlier part); commands that are a prefix / suffix / part of the command
+// sent before or of what the device printed before.
+func c12genCmdShape(cs *c12case, r *vlib.Rng) {
+	n := []int{1, 2, 63, 64, 65, 66, 80, 128, 129, 200, 500, 1100}[r.Intn(12)]
+	if !cs.thorough && n > 500 && !r.Chance(1, 3) {
+		n = 130
+	}
+	alpha := []byte("abcdefghijklmnopqrstuvwxyz0123456789 -/.:|=")
+	fit := func(b []byte) string { // exactly n bytes, no blank at either end (the device line is what it is)
+		for len(b) < n {
+			b = append(b, alpha[r.Intn(len(alpha))])
+		}
+		b = b[:n]
+		if b[0] == ' ' {
+			b[0] = 'e'
+		}
+		if b[n-1] == ' ' {
+			b[n-1] = '='
+		}
+		return string(b)
+	}
+	rep := func(unit string) []byte { return []byte(strings.Repeat(unit, n/len(unit)+1)) }
+	switch r.Intn(7) {
+	case 0:
+		cs.shape = "random"
+		cs.cmd = fit(nil)
+	case 1:
+		cs.shape = "run"
+		cs.cmd = fit(append([]byte("echo "), rep(r.Pick([]string{"=", "-", "a", "0"}))...))
+	case 2:
+		cs.shape = "periodic"
+		cs.cmd = fit(rep(r.Pick([]string{"ab", "abc ", "10.0.0.1 ", "set x y; ", "0123456789"})))
+	case 3:
+		cs.shape = "tail-repeats"
+		// X filler X: the last |X| bytes already occur at the start
+		x := r.Bytes(r.Range(1, 70), alpha)
+		b := append([]byte{}, x...)
+		for len(b)+len(x) < n {
+			b = append(b, alpha[r.Intn(len(alpha))])
+		}
+		if len(b)+len(x) > n && n > len(x) {
+			b = b[:n-len(x)]
+		}
+		cs.cmd = fit(append(b, x...))
+	case 4:
+		cs.shape = "prefix-of-previous"
+		cs.prevCmd = fit(rep("show interfaces Gi0/1 counters "))
+		cs.cmd = cs.prevCmd[:1+r.Intn(len(cs.prevCmd))]
+	case 5:
+		cs.shape = "suffix-of-previous"
+		cs.prevCmd = fit(rep("ping 10.0.0.1 size 100 repeat 5 "))
+		cs.cmd = cs.prevCmd[r.Intn(len(cs.prevCmd)):]
+	case 6:
+		cs.shape = "part-of-previous-output"
+		cs.cmd = fit(rep("interface Gi0/1 description uplink "))
+		cs.prevCmd = "show history"
+		cs.prevOut = "  " + cs.cmd + " " + cs.nl + " " + cs.cmd[:len(cs.cmd)/2+1] + cs.nl
+	}
+	cs.cmd = strings.TrimSpace(cs.cmd)
+	if cs.cmd == "" {
+		cs.cmd = "q"
+	}
+	if cs.prevCmd != "" {
+		cs.prevCmd = strings.TrimSpace(cs.prevCmd)
+		if cs.prevOut == "" {
+			cs.prevOut = c12out(r, cs.nl, 2)
+		}
+	}
 }
 
 // c12genEsc draws the escalation side of a case (kinds esc and netinter): tree, start and target
@@ -707,6 +801,9 @@ func c12staleOK(cs c12case) bool {
 	switch cs.kind {
 	case "send":
 		first = cs.cmd
+		if cs.prevCmd != "" {
+			first = cs.prevCmd
+		}
 	case "inter":
 		if cs.events[0].resp < 0 || cs.events[0].hidden {
 			return false
@@ -791,6 +888,9 @@ func runC12case(cs c12case) (o c12obs) {
 			if cs.interim {
 				script[0].Ask = "..." // the device waits for more input: an interim prompt, not the prompt
 			}
+			if cs.prevCmd != "" {
+				script = append([]sim.DlgStep{{Out: cs.prevOut, NextMode: "exec"}}, script...)
+			}
 		}
 		dev := sim.NewDialogue("exec", prompts, script)
 		dev.NL = cs.nl
@@ -860,6 +960,17 @@ func runC12case(cs c12case) (o c12obs) {
 			}
 		} else {
 			opOpts = append(opOpts, opoptions.WithNoStripPrompt())
+			if cs.prevCmd != "" {
+				// history: an earlier plain command on the same channel
+				b, err := d.Channel.SendInput(cs.prevCmd, opOpts...)
+				pop := c12op{kind: "send", w0: w0, w1: w0 + 2, impl: [][]byte{[]byte(cs.prevCmd), []byte("\n")}, err: errClass(err),
+					tokens: []string{"send", b2s(cs.exact), "0", ".", vlib.Hex([]byte(cs.prevCmd))}}
+				if err == nil {
+					pop.result, pop.hasRes = string(b), true
+				}
+				o.ops = append(o.ops, pop)
+				w0 += 2
+			}
 			if cs.eager {
 				opOpts = append(opOpts, opoptions.WithEager())
 			}
@@ -1479,6 +1590,19 @@ func c12check(c *ctx, cases []c12case) {
 		}
 		if cs.interim {
 			res.Count(fmt.Sprintf("send interim dom:%v", allDom))
+		}
+		if cs.kind == "send" {
+			lb := "<=64"
+			switch l := len(cs.cmd); {
+			case l > cs.depth:
+				lb = ">depth"
+			case l > 128:
+				lb = "129.."
+			case l > 64:
+				lb = "65..128"
+			}
+			res.Count(fmt.Sprintf("send shape:%s len:%s exact:%v", cs.shape, lb, cs.exact))
+			res.Count(fmt.Sprintf("send echo-split:%v eager:%v dom:%v", cs.echoTail > 0, cs.eager, allDom))
 		}
 		if i%257 == 0 {
 			res.Sample(map[string]any{"case": caseLine, "kind": cs.kind, "events": len(cs.events), "complete": cs.complete, "early_at": cs.earlyAt,
